@@ -3,7 +3,7 @@ from __future__ import annotations
 
 import dataclasses
 
-from .exprs import ecols, gen_e, gen_p
+from .exprs import ecols, gen_e, gen_p, pcols, reflavour
 from .tags import KEYS, is_key
 
 
@@ -33,6 +33,7 @@ class Cfg:
     max_expanded_nodes: int = 60  # size of the program with shared operands written out
     tall_prob: float = 0.05  # probability that a level stacks 5-9 unary operations instead of 0..max_unary
     wide_prob: float = 0.1  # probability that a binary operation is immediately followed by another one (3-way)
+    lookalike_prob: float = 0.0  # probability that a calculation / selection reuses an earlier expression of the case with its literals re-typed
     flavour_prob: float = 0.0  # probability that a case mixes int / float / bool representations of equal numbers
 
 
@@ -43,6 +44,8 @@ class Gen:
         self.leaves: dict = {}
         self.nmat = 0
         self._sizes: dict = {}
+        self.seen_e: list = []
+        self.seen_p: list = []
 
     # ------------------------------------------------------------ leaves
     def leaf(self, engine, want_cols=None, allow_special=True):
@@ -173,6 +176,11 @@ class Gen:
                 return None
             tag = rng.choice(free)
             e = gen_e(rng, cols, 2, need_col=True)
+            if self.cfg.lookalike_prob:
+                cand = [x for x in self.seen_e if ecols(x) <= cols]
+                if cand and rng.random() < self.cfg.lookalike_prob:
+                    e = reflavour(rng.choice(cand), rng)
+                self.seen_e.append(e)
             if not ecols(e):
                 return None
             return ["calc", prog, tag, e, None], cols | {tag}, eng
@@ -187,6 +195,11 @@ class Gen:
             return ["proj", prog, sorted(keep), None], frozenset(keep), eng
         if op == "sel":
             p = gen_p(rng, cols, 2, wild_ranges=self.cfg.wild_ranges)
+            if self.cfg.lookalike_prob:
+                cand = [x for x in self.seen_p if pcols(x) <= cols]
+                if cand and rng.random() < self.cfg.lookalike_prob:
+                    p = reflavour(rng.choice(cand), rng)
+                self.seen_p.append(p)
             return ["sel", prog, p, None], cols, eng
         if op == "dedup":
             return ["dedup", prog, None], cols, eng
